@@ -441,6 +441,37 @@ impl UserRx {
         update_optional_waker(&mut self.shared.locked.lock().dispatcher_waker, cx);
     }
 
+    /// The connection is going away: hand every in-order message that is still parked in the
+    /// reassembly queue to the reader, regardless of the user queue's capacity (the memory is
+    /// held already). Data that was acknowledged to the peer must not be dropped.
+    pub fn flush_all_before_close(&mut self) {
+        let shared = &self.shared;
+        let mut flushed = false;
+        while self
+            .ooq
+            .send_front_if_fits(usize::MAX, |msg| {
+                let mut g = shared.locked.lock();
+                if g.reader_dropped {
+                    return Err(msg);
+                }
+                g.queue.push_back(match msg {
+                    OoqMessage::Payload(payload) => UserRxMessage::Payload(payload),
+                    OoqMessage::Eof => UserRxMessage::Eof,
+                });
+                Ok(())
+            })
+            .is_some()
+        {
+            flushed = true;
+        }
+        if flushed {
+            let waker = self.shared.locked.lock().reader_waker.take();
+            if let Some(w) = waker {
+                w.wake();
+            }
+        }
+    }
+
     /// Enqueue an error into read half to be consumed by the user.
     pub fn enqueue_error(&self, msg: String) {
         let mut g = self.shared.locked.lock();
